@@ -281,3 +281,47 @@ func RunProbe(probeSrc, scope string) ([]string, error) {
 	err = ip.ProcessTestSubroutine(Scopes[scope], decl)
 	return cap.Logs, err
 }
+
+
+// RunProbeIn is RunProbe with a caller-supplied main VCL (declarations the probe refers to).
+func RunProbeIn(main, probeSrc, scope string) ([]string, error) {
+	ip, cap, err := Prepare(main)
+	if err != nil {
+		return nil, err
+	}
+	decl, err := ParseSub(probeSrc, "probe")
+	if err != nil {
+		return nil, err
+	}
+	err = ip.ProcessTestSubroutine(Scopes[scope], decl)
+	return cap.Logs, err
+}
+
+// MemResolver resolves includes of the simulator from memory.
+type MemResolver struct {
+	Main    string
+	Modules map[string]string
+}
+
+func (m *MemResolver) MainVCL() (*resolver.VCL, error) {
+	return &resolver.VCL{Name: "main.vcl", Data: m.Main}, nil
+}
+
+func (m *MemResolver) Resolve(stmt *ast.IncludeStatement) (*resolver.VCL, error) {
+	if src, ok := m.Modules[stmt.Module.Value]; ok {
+		return &resolver.VCL{Name: stmt.Module.Value, Data: src}, nil
+	}
+	return nil, fmt.Errorf("module %s not found", stmt.Module.Value)
+}
+
+func (m *MemResolver) Name() string           { return "mem" }
+func (m *MemResolver) IncludePaths() []string { return nil }
+
+// NewServerWith creates an interpreter over an arbitrary resolver.
+func NewServerWith(r resolver.Resolver, opts ...icontext.Option) (*interpreter.Interpreter, *Capture) {
+	cap := &Capture{}
+	all := append([]icontext.Option{icontext.WithResolver(r)}, opts...)
+	ip := interpreter.New(all...)
+	ip.Debugger = cap
+	return ip, cap
+}
